@@ -12,7 +12,10 @@ class C11(vlib.PropertyCheck):
     impl_kwargs = L.IMPL_KW
     nontrivial_rule = ('byte files (structured-random without expansion characters: whole trace compared; fully random: faults, '
                        'termination, spawning and the ledger compared), lines at and over the 20480-byte limit, NUL bytes, missing '
-                       'final newline, up to 600 unmatched begin lines, tables across every doubling, init..free cycles 1-5 deep '
+                       'final newline, up to 600 unmatched begin lines, tables across every doubling, contexts and application functions registered 0-5, 9-11, '
+                       '19-21, 39-41 (thorough: up to 240) strong before texts with a % that starts no call, unknown calls, calls to the registered functions and '
+                       'unknown context names are expanded and parsed, in three init/register/use/free cycles with different numbers (heap dirtied before every '
+                       'init, every realloc\'ed byte painted), init..free cycles 1-5 deep '
                        'with the heap ledger read after every free, spifconf_find_file on lengths up to 3*PATH_MAX and beyond 65536, '
                        'spifconf_shell_expand on texts whose $NAME / ~ / %get(k) name environment values, HOME and stored values of 0, 1, '
                        '127..129, 255..257, 4095..4097 and CONFIG_BUFF-3..CONFIG_BUFF+1 bytes (thorough: every power of two and its neighbours, '
@@ -70,12 +73,16 @@ class C11(vlib.PropertyCheck):
 
     def gen(self, tier, rng):
         quick = tier == 'quick'
+        # the budget is per harness process, not per case: the thorough tier creates and removes some 300 000 files for its
+        # directory listings (five minutes of system time on a busy machine), and a run cut off at 300 s blames the case it was in
+        self.case_timeout = 300 if quick else 900
         cases = []
         cases += L.gen_world(rng, tier)
         cases += L.gen_open(rng)
         cases += L.gen_unmatched(rng, [159, 160, 161, 255, 256, 257, 300, 600] if quick else [1, 19, 20, 21, 159, 160, 161, 254, 255, 256, 257, 258, 300, 511, 512, 513, 600])
         cases += L.gen_chain([159, 160, 161, 255, 256, 257, 300] if quick else [9, 10, 11, 19, 20, 21, 79, 80, 81, 159, 160, 161, 254, 255, 256, 257, 258, 300, 511, 512, 513, 600])
         cases += L.gen_tables(rng, [19, 20, 21, 159, 160, 161, 255] if quick else [0, 1, 19, 20, 21, 39, 40, 41, 79, 80, 81, 159, 160, 161, 247, 248, 254, 255])
+        cases += L.gen_registered(rng, L.REG_COUNTS_QUICK if quick else sorted(set(L.REG_COUNTS_QUICK + L.REG_COUNTS_MORE)))
         cases += L.gen_lifecycle(rng, 150 if quick else 3000)
         cases += L.gen_random_files(rng, 150 if quick else 4000, quiet=False)
         cases += L.gen_random_files(rng, 150 if quick else 4000, quiet=True)
@@ -92,7 +99,8 @@ class C11(vlib.PropertyCheck):
         rng = ctx['rng']
         cases = (L.gen_unmatched(rng, [160, 256, 300]) + L.gen_chain([160, 256, 300]) + L.gen_tables(rng, [20, 160, 255]) +
                  L.gen_open(rng) + ['find 4095 -1 1,2', 'find 2047 2047 1,2', 'find 10 5 4077,4078,4079,69613,69614'] +
-                 L.gen_world_dirs(rng, 'quick')[:60:3] + L.gen_world_values(rng, [300, L.CB - 1])[::7])
+                 L.gen_world_dirs(rng, 'quick')[:60:3] + L.gen_world_values(rng, [300, L.CB - 1])[::7] +
+                 L.gen_registered(rng, [3, 4, 13, 20, 40], cycles=2)[:5])
         return L.impl_faults(self, ctx, cases)
 
     def search_gen(self, tier, rng):
